@@ -31,7 +31,16 @@ for l in open('/tmp/mv/%s.suite.json'%sys.argv[1]):
 b=json.load(open('/root/.vp/BASELINE.json'))['stable_pass']
 bad=[t for t in b if res.get(t)!='pass']
 print("suite_baseline_pass=%d/%d not_passing=%s"%(len(b)-len(bad),len(b),bad))
+open('/tmp/mv/%s.retry'%sys.argv[1],'w').write("\n".join(bad))
 PY
+# tests that failed in the loaded full run are re-run alone (known to flake under CPU load on the unchanged tree too)
+while read -r t; do
+  [ -z "$t" ] && continue
+  pkg="${t%%::*}"; name="${t##*::}"; name="${name%%/*}"
+  ok=0
+  for a in 1 2 3; do if go test -vet=off -count=1 -run "^${name}\$" "$pkg" >/dev/null 2>&1; then ok=1; break; fi; done
+  echo "retry $t alone: pass=$ok"
+done < /tmp/mv/$label.retry
 } > $R 2>&1
 cd /; git -C /repo worktree remove --force "$WT"; rm -f /tmp/mv/$label.suite.json
 cat $R
